@@ -3,12 +3,15 @@
 // It generates strings (deterministically from -seed), runs the real
 // time.Parse(time.RFC3339, s) on each of them and writes Coq files in which the model
 // (Time.parse_obs) is evaluated on the same strings and compared with what Go returned.
-// It also records t.UTC().Format("2006-01-02T15:04:05Z") and t.UTC().Format(time.RFC3339Nano)
-// for random instants and compares them with Time.format_obs.
+// The same strings are given to (*time.Time).UnmarshalText (what encoding/xml uses) and compared
+// with Time.strict_obs. It also records t.UTC().Format("2006-01-02T15:04:05Z"),
+// t.UTC().Format(time.RFC3339Nano) and t.UTC().MarshalText() for random instants and compares
+// them with Time.format_obs.
 //
 //	go run ./cmd/timediff -seed 1 -n 20000 -out DIR -shards 8
 //
-// Files written: DIR/cases_time_<k>.v (parse) and DIR/cases_timefmt_<k>.v (format); each defines
+// Files written: DIR/cases_time_<k>.v (Parse), DIR/cases_timestrict_<k>.v (UnmarshalText) and
+// DIR/cases_timefmt_<k>.v (formatting); each defines
 // M := Eval vm_compute in mismatches ... and prints it; "M = []" means model and Go agree.
 package main
 
@@ -388,6 +391,8 @@ func main() {
 	type stat struct{ Total, Accepted int }
 	stats := map[string]*stat{}
 	lines := make([]string, len(g.cases))
+	slines := make([]string, len(g.cases)) // (*time.Time).UnmarshalText on the same strings
+	strictAccepted, strictDiffers := 0, 0
 	for i, c := range g.cases {
 		st := stats[c.cat]
 		if st == nil {
@@ -404,6 +409,20 @@ func main() {
 			obs = `VC "None" []`
 		}
 		lines[i] = fmt.Sprintf("(%s, %s)", coqString(c.s), obs)
+
+		var ut time.Time
+		uerr := ut.UnmarshalText([]byte(c.s))
+		var sobs string
+		if uerr == nil {
+			strictAccepted++
+			sobs = fmt.Sprintf(`VC "Some" [%s; %s]`, vz(ut.Unix()), vz(int64(ut.Nanosecond())))
+		} else {
+			sobs = `VC "None" []`
+		}
+		if sobs != obs {
+			strictDiffers++
+		}
+		slines[i] = fmt.Sprintf("(%s, %s)", coqString(c.s), sobs)
 	}
 
 	// format cases
@@ -448,6 +467,7 @@ func main() {
 		finsts = append(finsts, finst{sec, nsec})
 	}
 	flines := make([]string, len(finsts))
+	marshalOK := 0
 	for i, f := range finsts {
 		t := time.Unix(f.sec, f.nsec)
 		if t.Unix() != f.sec || int64(t.Nanosecond()) != f.nsec {
@@ -455,7 +475,12 @@ func main() {
 		}
 		a := t.UTC().Format("2006-01-02T15:04:05Z")
 		b := t.UTC().Format(time.RFC3339Nano)
-		flines[i] = fmt.Sprintf("((%s, %s), VL [VS %s; VS %s])", zlit(f.sec), zlit(f.nsec), coqString(a), coqString(b))
+		mt := `VC "None" []`
+		if txt, err := t.UTC().MarshalText(); err == nil {
+			mt = fmt.Sprintf(`VC "Some" [VS %s]`, coqString(string(txt)))
+			marshalOK++
+		}
+		flines[i] = fmt.Sprintf("((%s, %s), VL [VS %s; VS %s; %s])", zlit(f.sec), zlit(f.nsec), coqString(a), coqString(b), mt)
 	}
 
 	write := func(name, typ, fn string, ls []string) {
@@ -482,12 +507,14 @@ func main() {
 	}
 	for k := 0; k < *shards; k++ {
 		write(fmt.Sprintf("cases_time_%d.v", k), "string", "parse_obs", shard(lines, k, *shards))
+		write(fmt.Sprintf("cases_timestrict_%d.v", k), "string", "strict_obs", shard(slines, k, *shards))
 		write(fmt.Sprintf("cases_timefmt_%d.v", k), "(Z * Z)", "format_obs", shard(flines, k, *shards))
 	}
 	// index: which global case number each shard starts at (to map mismatch indices back)
 	var idx strings.Builder
 	for k := 0; k < *shards; k++ {
-		fmt.Fprintf(&idx, "cases_time_%d.v %d\ncases_timefmt_%d.v %d\n", k, len(lines)*k / *shards, k, len(flines)*k / *shards)
+		fmt.Fprintf(&idx, "cases_time_%d.v %d\ncases_timestrict_%d.v %d\ncases_timefmt_%d.v %d\n",
+			k, len(lines)*k / *shards, k, len(lines)*k / *shards, k, len(flines)*k / *shards)
 	}
 	_ = os.WriteFile(filepath.Join(*out, "index_time.txt"), []byte(idx.String()), 0o644)
 
@@ -508,6 +535,9 @@ func main() {
 	}
 	sum["categories"] = per
 	sum["accepted_by_go"] = acc
+	sum["accepted_by_UnmarshalText"] = strictAccepted
+	sum["UnmarshalText_differs_from_Parse"] = strictDiffers
+	sum["format_MarshalText_ok"] = marshalOK
 	js, _ := json.Marshal(sum)
 	fmt.Println(string(js))
 }
